@@ -252,6 +252,10 @@ pub fn resolve(spec: &FnSpec, key: &str, arg: &Value, tag: u32, ordinal: u32) ->
     match out {
         ScriptOut::Ok(v) => Ok(v.to_value()),
         ScriptOut::Echo => Ok(arg.clone()),
+        ScriptOut::Nth(n) => Ok(match arg {
+            Value::Vec(items) => items.get(*n).cloned().unwrap_or(Value::None),
+            _ => Value::None,
+        }),
         ScriptOut::Unique => {
             let t = if spec.mix_tag { tag.to_string() } else { "-".into() };
             let o = if spec.mix_ordinal { ordinal.to_string() } else { "-".into() };
